@@ -37,8 +37,23 @@ let stringify_line fixed l =
   let bytes = List.init (String.length l / 2) (fun i -> n_of_int (hexd l.[2*i] * 16 + hexd l.[2*i+1])) in
   String.concat "" (List.map (fun c -> Printf.sprintf "%02x" (int_of_n c)) (stringify fixed bytes))
 
+(* subst: "<hex define> <hex arg>,<hex arg>,...|-" -> hex of r_expand's text, or the fault *)
+let unhex l = List.init (String.length l / 2) (fun i -> n_of_int (hexd l.[2*i] * 16 + hexd l.[2*i+1]))
+let tohex bs = String.concat "" (List.map (fun c -> Printf.sprintf "%02x" (int_of_n c)) bs)
+let subst_line l =
+  let sp = String.index l ' ' in
+  let def = unhex (String.sub l 0 sp) in
+  let al = String.sub l (sp + 1) (String.length l - sp - 1) in
+  let args = if al = "-" then [] else List.map unhex (String.split_on_char ',' al) in
+  match subst_define true def args with
+  | Ok r -> tohex r
+  | OutOfRange -> "THROW"
+  | BadIndex -> "BADINDEX"
+  | Fuel -> "FUEL"
+
 let () =
   match Sys.argv.(1) with
+  | "subst" -> each_line subst_line
   | "stringify" -> (try while true do let l = input_line stdin in print_string (stringify_line true l); print_newline () done with End_of_file -> ())
   | "impl" -> each_line (run true)
   | "spec" -> each_line (run false)
